@@ -26,6 +26,7 @@ def Val.ok : Val → Prop
   | .num text => text ≠ []
   | .richErr => False
   | .time _ text nf nfMem => text ≠ [] ∧ nf = nfMem
+  | .dur text nfMem => text ≠ [] ∧ nfMem = 0
   | _ => True
 
 def Item.ok : Item → Prop
@@ -48,6 +49,13 @@ theorem cell_eq_memory (x : Ext) (hx : ExtLaw x) (cs : ColStyles) (rowStyle : In
     cases v with
     | nil => simp [Item.isSkip] at hskip
     | richErr => simp [Item.ok, Val.ok] at hok
+    | dur text nfMem =>
+      obtain ⟨hne, hnf⟩ : text ≠ [] ∧ nfMem = 0 := hok
+      subst hnf
+      simp only [mkCell, setCellVal, Except.ok.injEq] at h
+      subst h
+      by_cases hr : rowStyle = 0 <;> by_cases hc : colStyleAt cs col = 0 <;>
+        simp [readCell, Spec.cellObs, Spec.valObs, Spec.valStyle, prepareCellStyle, lit_b, lit_str, lit_inline, hne, hr, hc]
     | time isNum text nf nfMem =>
       obtain ⟨hne, hnf⟩ : text ≠ [] ∧ nf = nfMem := hok
       subst hnf
@@ -86,6 +94,18 @@ theorem cell_eq_memory (x : Ext) (hx : ExtLaw x) (cs : ColStyles) (rowStyle : In
     · subst hf
       cases v with
       | richErr => simp [Item.ok, Val.ok] at hok
+      | dur text nfMem =>
+        obtain ⟨hne, hnf⟩ : text ≠ [] ∧ nfMem = 0 := hok
+        subst hnf
+        by_cases hs : style > 0
+        · simp [mkCell, setCellFormula, setCellVal, hs] at h
+          subst h
+          have hs0 : style ≠ 0 := by omega
+          simp [readCell, Spec.cellObs, Spec.valObs, Spec.valStyle, prepareCellStyle, lit_b, lit_str, lit_inline, hs, hs0, hne]
+        · simp [mkCell, setCellFormula, setCellVal, hs] at h
+          subst h
+          by_cases hr : rowStyle = 0 <;> by_cases hc : colStyleAt cs col = 0 <;>
+            simp [readCell, Spec.cellObs, Spec.valObs, Spec.valStyle, prepareCellStyle, lit_b, lit_str, lit_inline, hs, hne, hr, hc]
       | time isNum text nf nfMem =>
         obtain ⟨hne, hnf⟩ : text ≠ [] ∧ nf = nfMem := hok
         subst hnf
@@ -137,6 +157,18 @@ theorem cell_eq_memory (x : Ext) (hx : ExtLaw x) (cs : ColStyles) (rowStyle : In
           simp [readCell, Spec.cellObs, Spec.valObs, Spec.valStyle, prepareCellStyle, lit_b, lit_str, lit_inline, hs]
     · cases v with
       | richErr => simp [Item.ok, Val.ok] at hok
+      | dur text nfMem =>
+        obtain ⟨hne, hnf⟩ : text ≠ [] ∧ nfMem = 0 := hok
+        subst hnf
+        by_cases hs : style > 0
+        · simp [mkCell, setCellFormula, setCellVal, hs, hf] at h
+          subst h
+          have hs0 : style ≠ 0 := by omega
+          simp [readCell, Spec.cellObs, Spec.valObs, Spec.valStyle, prepareCellStyle, lit_b, lit_str, lit_inline, hs, hs0, hne, hf]
+        · simp [mkCell, setCellFormula, setCellVal, hs, hf] at h
+          subst h
+          by_cases hr : rowStyle = 0 <;> by_cases hc : colStyleAt cs col = 0 <;>
+            simp [readCell, Spec.cellObs, Spec.valObs, Spec.valStyle, prepareCellStyle, lit_b, lit_str, lit_inline, hs, hne, hr, hc, hf]
       | time isNum text nf nfMem =>
         obtain ⟨hne, hnf⟩ : text ≠ [] ∧ nf = nfMem := hok
         subst hnf
